@@ -22,16 +22,16 @@ import (
 	"crypto/x509/pkix"
 	"encoding/json"
 	"encoding/pem"
-	"math/big"
 	"flag"
 	"fmt"
+	"math/big"
 	"os"
 	"path/filepath"
 	"reflect"
 	"regexp"
 	"runtime"
 	"runtime/debug"
-	"runtime/pprof"
+	"sort"
 	"strings"
 	"sync"
 	"time"
@@ -63,21 +63,22 @@ type FlagDiff struct {
 }
 
 type Case struct {
-	Fam      string          `json:"fam"`
-	ID       int             `json:"id"`
-	Shape    string          `json:"shape,omitempty"`
-	Obs      string          `json:"obs"`
-	FlagDiff []FlagDiff      `json:"flagdiff,omitempty"`
-	Panics   []PanicInfo     `json:"panics,omitempty"`
-	Others   int             `json:"others,omitempty"` // how many settings of the remaining flags were run
-	Kind     string          `json:"kind,omitempty"`   // random stream
-	Flags    int             `json:"flags,omitempty"`
-	Ctx      int             `json:"ctx,omitempty"`
-	Object   json.RawMessage `json:"object,omitempty"`
-	Admitted *bool           `json:"admitted,omitempty"`
-	Accepted *bool           `json:"accepted,omitempty"` // random stream: the validator found no error
-	Why      string          `json:"why,omitempty"`      // random stream: first validation error (diagnostic only)
-	Error    string          `json:"error,omitempty"`
+	PtrFields []string        `json:"ptr_fields,omitempty"` // fam "inv": optional (pointer / map / slice-of-pointer) fields of the CRD types
+	Fam       string          `json:"fam"`
+	ID        int             `json:"id"`
+	Shape     string          `json:"shape,omitempty"`
+	Obs       string          `json:"obs"`
+	FlagDiff  []FlagDiff      `json:"flagdiff,omitempty"`
+	Panics    []PanicInfo     `json:"panics,omitempty"`
+	Others    int             `json:"others,omitempty"` // how many settings of the remaining flags were run
+	Kind      string          `json:"kind,omitempty"`   // random stream
+	Flags     int             `json:"flags,omitempty"`
+	Ctx       int             `json:"ctx,omitempty"`
+	Object    json.RawMessage `json:"object,omitempty"`
+	Admitted  *bool           `json:"admitted,omitempty"`
+	Accepted  *bool           `json:"accepted,omitempty"` // random stream: the validator found no error
+	Why       string          `json:"why,omitempty"`      // random stream: first validation error (diagnostic only)
+	Error     string          `json:"error,omitempty"`
 }
 
 // ---------------------------------------------------------------- flags
@@ -261,11 +262,12 @@ func populate(c *k8s.VerifC17, ctx int, viaSync bool) {
 // ---------------------------------------------------------------- Ingress shapes
 
 // Shape codes (see coq/Shapes/Cases.v): 12 decimal digits 1 d t m c a n h s k k2 r2.
-//   d default backend (0 none, 1 service, 2 resource, 3 neither); t tls; m mergeable type
-//   (0 none, 1 master, 2 minion, 3 garbage); c challenge label; a annotations; n number of
-//   rules; h http of rule 1 (0 nil, 1 no paths, 2 one path, 3 two paths); s pathType shape of
-//   the first path (0 no pathType + "/p", 1 ImplementationSpecific + "", 2 Prefix + "/p");
-//   k, k2 backends of the paths; r2 second rule (0 nil http, 1-3 backend of its one path).
+//
+//	d default backend (0 none, 1 service, 2 resource, 3 neither); t tls; m mergeable type
+//	(0 none, 1 master, 2 minion, 3 garbage); c challenge label; a annotations; n number of
+//	rules; h http of rule 1 (0 nil, 1 no paths, 2 one path, 3 two paths); s pathType shape of
+//	the first path (0 no pathType + "/p", 1 ImplementationSpecific + "", 2 Prefix + "/p");
+//	k, k2 backends of the paths; r2 second rule (0 nil http, 1-3 backend of its one path).
 func backendOf(k byte, svc string) networking.IngressBackend {
 	switch k {
 	case '1':
@@ -360,8 +362,8 @@ const ingKey = "default/z-new"
 // result is what is reported.  The thorough tier and replays always use fresh controllers.
 type pool map[[3]int]*k8s.VerifC17
 
-// priorPanic remembers, per goroutine-free global, nothing: a panic while the prior state is
-// being stored is returned to the caller, which reports it against the scenario.
+// safePopulate: a panic while the (valid, admissible) objects of the prior state are being
+// stored is returned to the caller, which reports it against the scenario.
 func safePopulate(c *k8s.VerifC17, ctx int, viaSync bool) (string, string) {
 	return guard(func() { populate(c, ctx, viaSync) })
 }
@@ -582,13 +584,7 @@ func runShape(p pool, j job, thorough bool) Case {
 
 func main() {
 	only := flag.String("only", "", "comma-separated families to run (default all)")
-	prof := flag.String("cpuprofile", "", "")
 	a := vh.ParseArgs()
-	if *prof != "" {
-		pf, _ := os.Create(*prof)
-		pprof.StartCPUProfile(pf)
-		defer pprof.StopCPUProfile()
-	}
 	w, err := vh.NewWriter(a.Out)
 	if err != nil {
 		fmt.Fprintln(os.Stderr, err)
@@ -627,6 +623,9 @@ func main() {
 				jobs = append(jobs, job{fam, len(jobs), d})
 			}
 		}
+	}
+	if *only == "" || want("inv") {
+		w.Emit(Case{Fam: "inv", ID: -1, PtrFields: ptrInventory()})
 	}
 	results := make([]Case, len(jobs))
 	var wg sync.WaitGroup
@@ -730,8 +729,8 @@ func fillSecrets(c *k8s.VerifC17) {
 
 // ---------------------------------------------------------------- CRD shapes
 
-func ip(i int) *int       { return &i }
-func bp(b bool) *bool     { return &b }
+func ip(i int) *int        { return &i }
+func bp(b bool) *bool      { return &b }
 func u16(i uint16) *uint16 { return &i }
 
 func actionOf(d byte) *conf_v1.Action {
@@ -1344,8 +1343,12 @@ func runCRDShape(p pool, fam string, id int, d string, thorough bool) Case {
 	settings := []int{id % nOther}
 	if thorough {
 		settings = settings[:0]
-		for i := 0; i < nOther; i++ {
-			settings = append(settings, i)
+		n := nOther
+		if fam == "vs" || fam == "vsr" { // template-heavy families: 8 settings per shape, rotating
+			n = 8
+		}
+		for i := 0; i < n; i++ {
+			settings = append(settings, (id+i*(nOther/n))%nOther)
 		}
 	}
 	cs.Others = len(settings)
@@ -1816,96 +1819,96 @@ func admitted(obj interface{}) bool {
 
 // string pools by JSON field name; the first entry is a valid value and is chosen most often
 var strPool = map[string][]string{
-	"host":               {host1, host2, "*.example.com", "", "UPPER.example.com"},
-	"path":               {"/r", "/", "/r/s", "~ ^/re", "= /exact", "", "/{x}", "/a b"},
-	"service":            {"svc-a", "svc-ext", "missing", ""},
-	"backup":             {"", "svc-ext", "svc-a"},
-	"secret":             {"tls-secret", "", "missing", "ca-secret", "jwk-secret", "htpasswd-secret"},
-	"clientCertSecret":   {"ca-secret", "", "tls-secret", "missing"},
-	"tlsSecret":          {"tls-secret", "", "missing"},
-	"trustedCertSecret":  {"ca-secret", "", "missing"},
-	"clientSecret":       {"oidc-secret", "apikey-secret", "", "missing"},
-	"crlFileName":        {"", "crl.pem"},
-	"protocol":           {"TCP", "UDP", "HTTP", "TLS_PASSTHROUGH", ""},
-	"lb-method":          {"", "round_robin", "least_conn", "ip_hash", "hash $request_uri consistent", "random two least_conn", "bogus"},
-	"loadBalancingMethod": {"", "round_robin", "least_conn", "hash $remote_addr", "random two", "bogus"},
-	"type":               {"", "http", "grpc", "text/plain"},
-	"url":                {"http://www.example.com", "${scheme}://${host}/x", "", "ftp://x"},
-	"body":               {"ok", "${request_uri}", "", "\"quoted\""},
-	"rate":               {"10r/s", "1r/m", "bogus", ""},
-	"key":                {"${binary_remote_addr}", "${request_uri}", "bad key", ""},
-	"zoneSize":           {"10M", "1k", "x", ""},
-	"logLevel":           {"", "error", "bogus"},
-	"realm":              {"realm", "", "a \"b\""},
-	"token":              {"", "$http_token", "$cookie_t", "bad"},
-	"jwksURI":            {"", "https://idp.example.com/jwks", "bad"},
-	"keyCache":           {"", "1h", "x"},
-	"authEndpoint":       {"https://idp.example.com/auth", "", "bad"},
-	"tokenEndpoint":      {"https://idp.example.com/token", ""},
-	"endSessionEndpoint": {"", "https://idp.example.com/logout"},
-	"postLogoutRedirectURI": {"", "/_logout"},
-	"redirectURI":        {"", "/_codexch"},
-	"clientID":           {"client", ""},
-	"scope":              {"", "openid+profile", "bogus"},
-	"claim":              {"sub", "a.b", ""},
-	"match":              {"gold", ""},
-	"header":             {"", "x-h", "bad header"},
-	"cookie":             {"", "c", "bad-cookie"},
-	"argument":           {"", "a"},
-	"variable":           {"", "$request_method", "$bogus"},
-	"value":              {"v", "!v", "", "a b"},
-	"statusMatch":        {"", "200", "! 500", "2xx"},
-	"route":              {"", "default/z-vsr", "z-vsr", "a/b/c"},
-	"dos":                {"", "default/dos"},
-	"logDest":            {"stderr", "syslog:server=127.0.0.1:514", "bad", ""},
-	"apPolicy":           {"", "default/dataguard"},
-	"apBundle":           {"", "bundle.tgz"},
-	"apLogConf":          {"", "default/logconf"},
-	"apLogBundle":        {"", "log.tgz"},
-	"verifyClient":       {"on", "off", "optional", "optional_no_ca", "bogus", ""},
-	"sslName":            {"", "srv.example.com"},
-	"serverName":         {"", ""},
-	"ciphers":            {"", "DEFAULT"},
-	"protocols":          {"", "TLSv1.2"},
-	"send":               {"", "ping", "\\x0"},
-	"expect":             {"", "pong", "~ ^x", "~ ("},
-	"ipv4":               {"", "127.0.0.1", "bad"},
-	"ipv6":               {"", "::1", "bad"},
-	"http":               {"", "http-l", "missing"},
-	"https":              {"", "https-l", "missing"},
-	"basedOn":            {"", "scheme", "x-forwarded-proto", "bogus"},
-	"rewritePath":        {"", "/x", "/$1"},
-	"grpcService":        {"", "svc.Health"},
-	"samesite":           {"", "strict", "bogus"},
-	"domain":             {"", ".example.com"},
-	"expires":            {"", "1h", "max"},
-	"next-upstream":      {"", "error timeout", "bogus"},
-	"server-snippets":    {"", "# s"},
-	"location-snippets":  {"", "# l"},
-	"http-snippets":      {"", "# h"},
-	"serverSnippets":     {"", "# s"},
-	"streamSnippets":     {"", "# t"},
-	"ingressClassName":   {"nginx"},
-	"internalRoute":      {""},
-	"cluster-issuer":     {"issuer", ""},
-	"issuer":             {"", "issuer"},
-	"suppliedIn":         {""},
-	"name":               {"name1", "", "bad name"},
-	"namespace":          {"", "default", "Bad"},
-	"SuppliedIn.header":  {"X-API-Key", "", "bad header"},
-	"SuppliedIn.query":   {"apikey", "", "q\""},
-	"AccessControl.allow": {"10.0.0.0/8", "1.2.3.4", "bad"},
-	"AccessControl.deny": {"10.1.0.0/16", "bad"},
+	"host":                        {host1, host2, "*.example.com", "", "UPPER.example.com"},
+	"path":                        {"/r", "/", "/r/s", "~ ^/re", "= /exact", "", "/{x}", "/a b"},
+	"service":                     {"svc-a", "svc-ext", "missing", ""},
+	"backup":                      {"", "svc-ext", "svc-a"},
+	"secret":                      {"tls-secret", "", "missing", "ca-secret", "jwk-secret", "htpasswd-secret"},
+	"clientCertSecret":            {"ca-secret", "", "tls-secret", "missing"},
+	"tlsSecret":                   {"tls-secret", "", "missing"},
+	"trustedCertSecret":           {"ca-secret", "", "missing"},
+	"clientSecret":                {"oidc-secret", "apikey-secret", "", "missing"},
+	"crlFileName":                 {"", "crl.pem"},
+	"protocol":                    {"TCP", "UDP", "HTTP", "TLS_PASSTHROUGH", ""},
+	"lb-method":                   {"", "round_robin", "least_conn", "ip_hash", "hash $request_uri consistent", "random two least_conn", "bogus"},
+	"loadBalancingMethod":         {"", "round_robin", "least_conn", "hash $remote_addr", "random two", "bogus"},
+	"type":                        {"", "http", "grpc", "text/plain"},
+	"url":                         {"http://www.example.com", "${scheme}://${host}/x", "", "ftp://x"},
+	"body":                        {"ok", "${request_uri}", "", "\"quoted\""},
+	"rate":                        {"10r/s", "1r/m", "bogus", ""},
+	"key":                         {"${binary_remote_addr}", "${request_uri}", "bad key", ""},
+	"zoneSize":                    {"10M", "1k", "x", ""},
+	"logLevel":                    {"", "error", "bogus"},
+	"realm":                       {"realm", "", "a \"b\""},
+	"token":                       {"", "$http_token", "$cookie_t", "bad"},
+	"jwksURI":                     {"", "https://idp.example.com/jwks", "bad"},
+	"keyCache":                    {"", "1h", "x"},
+	"authEndpoint":                {"https://idp.example.com/auth", "", "bad"},
+	"tokenEndpoint":               {"https://idp.example.com/token", ""},
+	"endSessionEndpoint":          {"", "https://idp.example.com/logout"},
+	"postLogoutRedirectURI":       {"", "/_logout"},
+	"redirectURI":                 {"", "/_codexch"},
+	"clientID":                    {"client", ""},
+	"scope":                       {"", "openid+profile", "bogus"},
+	"claim":                       {"sub", "a.b", ""},
+	"match":                       {"gold", ""},
+	"header":                      {"", "x-h", "bad header"},
+	"cookie":                      {"", "c", "bad-cookie"},
+	"argument":                    {"", "a"},
+	"variable":                    {"", "$request_method", "$bogus"},
+	"value":                       {"v", "!v", "", "a b"},
+	"statusMatch":                 {"", "200", "! 500", "2xx"},
+	"route":                       {"", "default/z-vsr", "z-vsr", "a/b/c"},
+	"dos":                         {"", "default/dos"},
+	"logDest":                     {"stderr", "syslog:server=127.0.0.1:514", "bad", ""},
+	"apPolicy":                    {"", "default/dataguard"},
+	"apBundle":                    {"", "bundle.tgz"},
+	"apLogConf":                   {"", "default/logconf"},
+	"apLogBundle":                 {"", "log.tgz"},
+	"verifyClient":                {"on", "off", "optional", "optional_no_ca", "bogus", ""},
+	"sslName":                     {"", "srv.example.com"},
+	"serverName":                  {"", ""},
+	"ciphers":                     {"", "DEFAULT"},
+	"protocols":                   {"", "TLSv1.2"},
+	"send":                        {"", "ping", "\\x0"},
+	"expect":                      {"", "pong", "~ ^x", "~ ("},
+	"ipv4":                        {"", "127.0.0.1", "bad"},
+	"ipv6":                        {"", "::1", "bad"},
+	"http":                        {"", "http-l", "missing"},
+	"https":                       {"", "https-l", "missing"},
+	"basedOn":                     {"", "scheme", "x-forwarded-proto", "bogus"},
+	"rewritePath":                 {"", "/x", "/$1"},
+	"grpcService":                 {"", "svc.Health"},
+	"samesite":                    {"", "strict", "bogus"},
+	"domain":                      {"", ".example.com"},
+	"expires":                     {"", "1h", "max"},
+	"next-upstream":               {"", "error timeout", "bogus"},
+	"server-snippets":             {"", "# s"},
+	"location-snippets":           {"", "# l"},
+	"http-snippets":               {"", "# h"},
+	"serverSnippets":              {"", "# s"},
+	"streamSnippets":              {"", "# t"},
+	"ingressClassName":            {"nginx"},
+	"internalRoute":               {""},
+	"cluster-issuer":              {"issuer", ""},
+	"issuer":                      {"", "issuer"},
+	"suppliedIn":                  {""},
+	"name":                        {"name1", "", "bad name"},
+	"namespace":                   {"", "default", "Bad"},
+	"SuppliedIn.header":           {"X-API-Key", "", "bad header"},
+	"SuppliedIn.query":            {"apikey", "", "q\""},
+	"AccessControl.allow":         {"10.0.0.0/8", "1.2.3.4", "bad"},
+	"AccessControl.deny":          {"10.1.0.0/16", "bad"},
 	"ProxyResponseHeaders.hide":   {"x-hide", "bad header"},
 	"ProxyResponseHeaders.pass":   {"x-pass", "bad header"},
 	"ProxyResponseHeaders.ignore": {"Expires", "Bogus"},
-	"OIDC.authExtraArgs": {"a=b", "bad arg"},
+	"OIDC.authExtraArgs":          {"a=b", "bad arg"},
 	"TransportServerSpec.host":    {"", host2, "bad host"},
-	"JWTAuth.secret":     {"jwk-secret", "", "missing"},
-	"BasicAuth.secret":   {"htpasswd-secret", "", "missing"},
-	"HealthCheck.path":   {"/healthz", "", "bad path"},
-	"UpstreamBuffers.size": {"8k", "", "x"},
-	"SessionCookie.path": {"", "/", "bad path"},
+	"JWTAuth.secret":              {"jwk-secret", "", "missing"},
+	"BasicAuth.secret":            {"htpasswd-secret", "", "missing"},
+	"HealthCheck.path":            {"/healthz", "", "bad path"},
+	"UpstreamBuffers.size":        {"8k", "", "x"},
+	"SessionCookie.path":          {"", "/", "bad path"},
 }
 
 func isTimeField(n string) bool {
@@ -2779,4 +2782,42 @@ func replayRandom(c Case) Case {
 		return cs
 	}
 	return finishRandom(cs, obj)
+}
+
+// ptrInventory lists, by reflection over the API types, every field of the custom-resource
+// specs whose zero value is nil (pointers, maps, slices of pointers): the places where a
+// schema-admissible object can make the code meet a nil.  The driver compares the list with
+// the inventory the model was written against, so a new optional sub-object is noticed.
+func ptrInventory() []string {
+	seen := map[reflect.Type]bool{}
+	var out []string
+	var walk func(t reflect.Type)
+	walk = func(t reflect.Type) {
+		for t.Kind() == reflect.Ptr || t.Kind() == reflect.Slice {
+			t = t.Elem()
+		}
+		if t.Kind() != reflect.Struct || seen[t] || !strings.HasSuffix(t.PkgPath(), "pkg/apis/configuration/v1") {
+			return
+		}
+		seen[t] = true
+		for i := 0; i < t.NumField(); i++ {
+			f := t.Field(i)
+			ft := f.Type
+			switch {
+			case ft.Kind() == reflect.Ptr:
+				out = append(out, t.Name()+"."+f.Name)
+			case ft.Kind() == reflect.Map:
+				out = append(out, t.Name()+"."+f.Name+"{}")
+			case ft.Kind() == reflect.Slice && ft.Elem().Kind() == reflect.Ptr:
+				out = append(out, t.Name()+"."+f.Name+"[]*")
+			}
+			walk(ft)
+		}
+	}
+	for _, x := range []interface{}{conf_v1.VirtualServerSpec{}, conf_v1.VirtualServerRouteSpec{}, conf_v1.TransportServerSpec{},
+		conf_v1.PolicySpec{}, conf_v1.GlobalConfigurationSpec{}} {
+		walk(reflect.TypeOf(x))
+	}
+	sort.Strings(out)
+	return out
 }
